@@ -5,6 +5,20 @@ HERE = os.path.dirname(os.path.dirname(os.path.abspath(__file__)))
 ALL = ['C%02d' % i for i in range(1, 21)]
 
 CLAIMED = {
+ 'C06': dict(
+    level='model_checking',
+    text='Tokens.tla lists 64 statement forms (every statement of the grammar, the operators, the built-in functions) as token sequences '
+         'with valid operands, a pool of 37 tokens (keywords, punctuation, operands of every type, fragments such as &H, 1E, an apostrophe) '
+         'and the token-level mutations drop / duplicate / swap / replace / insert. MC_Tokens.tla lets TLC enumerate EVERY text within one '
+         'mutation of every form (about 35,000 texts), deeper mutation chains by random walks, and mutation chains over the token sequences '
+         'of whole generated programs. Each text is placed in a host (declarations in front, END and procedure bodies behind; at module '
+         'level or inside a SUB) and compiled at rotating optimisation levels and debug settings (all six in the thorough tier); for an '
+         'accepted text the binary module and the listing are produced as well. Trace_Total.tla gives the verdict: internal-failure (any '
+         'exception other than a syntax or compile error, signature = exception type and raising function and stage), no-position, '
+         'position-outside-text, no-answer (30 s).',
+    note='Trusted: TLC, the token renderer, the host text. Totality is claimed for the explored texts: all single mutations of the listed forms, and samples of deeper ones.',
+    technique='TLA+ token-mutation transition system; TLC-enumerated texts compiled; trace verdicts on outcome and position',
+    design='6 C06'),
  'C05': dict(
     level='model_checking',
     text='Faults.tla holds the catalogue of 50 static rule violations (type mismatch in assignment, operator, IF/ELSEIF/WHILE/UNTIL '
